@@ -25,7 +25,7 @@ ENQUEUE = {"push_back", "push_front", "insert", "extend", "append"}
 
 STD_SMALL = re.compile(r"^std::(option::Option|result::Result)::<|^std::cmp::Ordering::"
                        r"|^<std::(option::Option|result::Result)<.*> as std::ops::(Try|FromResidual)"
-                       r"|^<T as std::convert::Into<U>>::into$")
+                       r"|^<T as std::convert::Into<U>>::into$|^core::bool::<impl bool>::then(_some)?$")
 
 
 def std_small(d):
